@@ -150,7 +150,7 @@ func (v *c14View) ExitFrom(fn *ssa.Function, cu *cut) bool {
 func c14NilReturnReach(V *c14View, starts []c14Pt, root *ssa.Function, cu *cut) bool {
 	r, _ := V.walk(starts, func(in ssa.Instruction) bool {
 		ret, ok := in.(*ssa.Return)
-		return ok && ret.Parent() == root && c14RetErrStatus(ret) != NonNil
+		return ok && ret.Parent() == root && V.retErrStatusAt(ret, V.cur) != NonNil
 	}, cu, false)
 	return r
 }
